@@ -88,8 +88,10 @@ def h_stamp(cfg):
                 if not cfg.get('ties_at_departures'):
                     assume(ne(a, D))
     info = {}
+    order = {}
     for idx, (p, a, g) in enumerate(r.arrivals):
         info[id(p)] = [a, g, None]
+        order[id(p)] = idx
     for (p, D) in r.departs:
         info[id(p)][2] = D - r.tx(p)
     pk = [p for p, _, _ in r.arrivals]
@@ -110,7 +112,8 @@ def h_stamp(cfg):
                 # not resolvable, such near-ties are left free (the dyadic jobs keep the exact rule, ties by arrival included)
                 ok = le(F_p, F_q + Fraction(1, 10 ** 9))
             else:
-                ok = Or(lt(F_p, F_q), And(eq(F_p, F_q), le(a_p, a_q)))
+                # equal stamps: the earlier arrival first - packets handed in at one instant arrive in the order of the put() calls
+                ok = Or(lt(F_p, F_q), And(eq(F_p, F_q), Or(lt(a_p, a_q), And(eq(a_p, a_q), order[id(p)] < order[id(q)]))))
             check('c14.stamp-order', Implies(waiting, ok),
                   'packet %d started while packet %d with a smaller stamp was waiting' % (p.packet_id, q.packet_id))
             nob += 1
@@ -198,6 +201,11 @@ def jobs(tier, seed):
                'cfg': {'kind': 'WFQ', 'rate': 8, 'table': {0: 2, 1: 3, 2: 1}, 'flows': [2, 0, 1, 1, 2, 1], 'sorts': 'int',
                        'ties_at_departures': True, 'split_gap': [3], 'burst': [0, 0, 0, 0, 1, 0], 'smax': 2, 'float_inexact': True,
                        'sizes': {'0': 4, '1': 4, '2': 1, '4': 1}}})
+    # equal stamps in one instant: four classes with equal vticks / weights, one burst (the heap must not reorder them)
+    for kind in ('VC', 'WFQ'):
+        js.append({'harness': 'stamp', 'weight': 30,
+                   'cfg': {'kind': kind, 'rate': 8, 'table': {0: 1, 1: 1, 2: 1, 3: 1}, 'flows': [0, 1, 2, 3, 0, 1], 'sorts': 'int',
+                           'burst': [0, 1, 1, 1, 1, 1], 'sizes': {'0': 1, '1': 1, '2': 1, '3': 1, '4': 1, '5': 1}}})
     # equal stamps, different arrival instants, creation times in the opposite order
     for kind, t in (('VC', {0: 2, 1: 1}), ('VC', {0: 1, 1: 1}), ('WFQ', {0: 1, 1: 1})):
         js.append({'harness': 'stamp', 'weight': 10,
